@@ -71,6 +71,9 @@ func NewScanner(proto string, opts ...ScannerOption) *Scanner {
 	s := &Scanner{
 		client: &http.Client{
 			Transport: tr,
+			// same policy as the default docker client: redirects are never followed,
+			// a scanned server must not be able to send the scanner to another host
+			CheckRedirect: moby.CheckRedirect,
 		},
 		proto:       proto,
 		dataTimeout: defaultDataTimeout,
